@@ -295,6 +295,17 @@ def check_shared(rep, ix):
                             if isinstance(t, ast.Subscript) and isinstance(t.value, ast.Name) and t.value.id in top and t.value.id not in local:
                                 muts.append((t.value.id, 'item assignment', n.lineno))
         rep.ob('R-C12-SHARED', f'{mod}:<module>', 'no function mutates a module-level container', not muts, found=str(muts), module=m)
+        # the requested channel set is one object handed to every file of a sequential batch (the pool pickles a copy per task):
+        # a function that changes it in place makes the result for a file depend on the files converted before it.  The one
+        # accepted site is _add_x_axis_to_channels_to_write (adds the index channel's name).
+        for f in ast.walk(m.tree):
+            if not isinstance(f, ast.FunctionDef) or f.name == '_add_x_axis_to_channels_to_write':
+                continue
+            for pn in [a.arg for a in f.args.args if a.arg in ('channel_name_sub_set', 'channels', 'channel_set')]:
+                ch = [x for x in common.mutations_of(f, pn) if not (isinstance(x, ast.Assign) and not any(isinstance(t, ast.Subscript) for t in x.targets))]
+                rep.ob('R-C12-SHARED', f'{mod}:{f.name}', f'the shared channel set `{pn}` is not changed in place', not ch,
+                       found='; '.join(_n(common.stmt_containing(x) if not isinstance(x, ast.stmt) else x)[:80] for x in ch), required='build a new set instead', node=ch[0] if ch else f, module=m,
+                       nontrivial=bool(ch))
         for c in ast.walk(m.tree):
             if isinstance(c, ast.Call) and _n(c.func) in ('os.makedirs', 'os.mkdir'):
                 kw = {k.arg: _n(k.value) for k in c.keywords}
